@@ -108,6 +108,47 @@ pub fn run(ctx: &mut Ctx, replay: Option<&str>) {
             let mut r = ctx.rng.fork(i as u64);
             flows.push(gen_flow(&mut r, &cfg));
         }
+        // small-scope exhaustive stream: every claim shape up to a size x every strategy kind (Custom over every subset of the
+        // positions, both index spellings) x every type-consistent selection (bounded per tree); a rotating slice in the quick tier
+        let small = small_claims(if ctx.tier == Tier::Quick { 3 } else { 4 }, now());
+        let want = ctx.tier.pick(250, 12000);
+        let mut produced = 0usize;
+        let stride = (small.len() / 40).max(1);
+        let offset = (ctx.seed as usize) % stride;
+        for (ci, claims) in small.iter().enumerate() {
+            if ctx.tier == Tier::Quick && ci % stride != offset {
+                continue;
+            }
+            let mut r = ctx.rng.fork(1_000_000 + ci as u64);
+            let mut ps = vec![];
+            all_positions(&claims["v"], &vec![Step::Key("v".into())], &mut ps);
+            ps.insert(0, vec![Step::Key("v".into())]);
+            let mut strategies = vec![Strategy::None, Strategy::Top, Strategy::All];
+            let subsets = 1usize << ps.len().min(5);
+            for mask in 1..subsets {
+                let paths: Vec<String> = ps.iter().take(5).enumerate().filter(|(i, _)| mask >> i & 1 == 1).map(|(_, p)| spell(&mut r, p)).collect();
+                strategies.push(Strategy::Custom(paths));
+            }
+            let sels = all_selections(claims, 24);
+            for st in &strategies {
+                for (si, sel) in sels.iter().enumerate() {
+                    if ctx.tier == Tier::Quick && (si + ci) % 5 != 0 {
+                        continue;
+                    }
+                    if produced >= want {
+                        break;
+                    }
+                    let (key, alg) = (crate::keys::KeyId::Hmac1, Some("HS256".to_string()));
+                    flows.push(Flow {
+                        issue: IssueArgs { claims: claims.clone(), strategy: st.clone(), holder: None, decoy: (si + ci) % 2 == 0, fmt: if (si + ci) % 3 == 0 { Fmt::Json } else { Fmt::Compact }, key, alg, queue: None },
+                        sel: sel.as_object().cloned().unwrap_or_default(),
+                        kb: None,
+                    });
+                    produced += 1;
+                    ctx.count("stream.small_scope_exhaustive");
+                }
+            }
+        }
     }
     let mut runs = vec![];
     let mut reqs = vec![];
